@@ -70,6 +70,15 @@ def def_cases(tier):
                 lhs = 'c ' + ' '.join(args) if args else 'c'
                 conn = '⟷'
                 yield ['def', {'ty': 'def', 'name': 'c', 'type': T, 'prop': '%s %s %s' % (lhs, conn, rhs if ' ' not in rhs or rhs.startswith('(') else '(' + rhs + ')')}]
+    # a constant with two type variables whose right side uses it at an instance that renames one variable to the other and
+    # specialises a later position (matching in either direction fails or succeeds depending on leftover bindings; they overlap)
+    T2 = "'a ⇒ 'b ⇒ bool"
+    for rhs in ["¬((c::'b ⇒ bool ⇒ bool) y true)", "¬((c::bool ⇒ 'a ⇒ bool) true x)", "¬((c::'b ⇒ 'a ⇒ bool) y x)",
+                "¬((c::'a ⇒ 'a ⇒ bool) x x)", "¬((c::bool ⇒ bool ⇒ bool) true true)", "x = x", "¬((c::'b ⇒ 'b ⇒ bool) y y)"]:
+        yield ['def', {'ty': 'def', 'name': 'c', 'type': T2, 'prop': 'c x y ⟷ (%s)' % rhs}]
+    # the same on an overloaded library name
+    for rhs in ["¬(less_eq (λu::'b. (0::nat)) (λu. 0))", "¬(less_eq (λu::nat. (0::'a)) (λu. 0))" if False else "¬(less_eq (λu::'b. true) (λu. true))", "true"]:
+        yield ['def', {'ty': 'def', 'name': 'less_eq', 'type': "('a ⇒ 'b) ⇒ ('a ⇒ 'b) ⇒ bool", 'prop': 'less_eq f g ⟷ (%s)' % rhs}]
     # overloaded name reuse: plus at bool
     for rhs in ['x', 'plus x y', '¬(plus y x)', 'true']:
         yield ['def', {'ty': 'def', 'name': 'plus', 'type': 'bool ⇒ bool ⇒ bool', 'prop': 'plus x y ⟷ (%s)' % rhs}]
